@@ -135,7 +135,10 @@ class HsRun:
 
 
 def _octets_tw():
-    return {"self._handshake_bytes[0:1]": 0, "self._handshake_bytes[1:2]": 1, "self._handshake_bytes[2:3]": 2, "self._handshake_bytes[3:4]": 3}
+    d = {"self._handshake_bytes[0:1]": 0, "self._handshake_bytes[1:2]": 1, "self._handshake_bytes[2:3]": 2, "self._handshake_bytes[3:4]": 3}
+    d.update({f"self._handshake_bytes[{i}]": i for i in range(4)})  # indexing a bytes object yields the octet itself
+    d.update({f"self._handshake_bytes[:1]": 0})
+    return d
 
 
 def rule_handshake_tables(ctx):
@@ -422,6 +425,60 @@ def rule_limits(ctx):
         f = mf.at(w[0][0])
         ok = any(x[0] == "lt" and x[1] == ("e", lim) and not x[3] for x in f) or any(x[0] == "any" and lim in norm.mentions(x) for x in f)
         ctx.ob(f"{q.split('.')[-3]}.{q.split('.')[-2]}.send: nothing is written when the message exceeds the peer's maximum", ok, "length not compared with the announced maximum before writing", fn.loc(w[0][1]))
+    # ... decided cell-wise as well (sa.core.tiny): over (announced maximum, serialized length).  A message goes out iff it is within the announced
+    # maximum AND within what the 24-bit length prefix can express; otherwise PayloadExceededError and nothing is written
+    from ..core.tiny import Tiny, Sym, Buf
+    from .common import inline_private
+    for q, lim in ((f"{TW}.WampRawSocketProtocol.send", "self._max_len_send"), (f"{AIO}.WampRawSocketMixinGeneral.send", "self.max_length_send")):
+        fn = ctx.program.func(q)
+        body = [x for x in fn.node.body if not (isinstance(x, ast.Expr) and isinstance(x.value, ast.Constant))]
+        probs, n_cells = [], 0
+        try:
+            for L in (512, 2 ** 24):
+                for n_ in sorted({L - 1, L, L + 1, 2 ** 24 - 1, 2 ** 24, 2 ** 24 + 1}):
+                    wrote = []
+                    payload = Buf(0, n_)
+
+                    def oracle(f_, a_, k_=None):
+                        # the framing function is followed (evaluated in place) down to what actually puts octets on the wire
+                        if f_ in ("self.transport.write", "Int32StringReceiver.sendString", "super().sendString", "self.sendString") or f_.endswith("StringReceiver.sendString"):
+                            if any(x is payload for x in a_):
+                                wrote.append(payload)
+                            return None
+                        if f_ == "self.isOpen":
+                            return True
+                        if f_.endswith("_serializer.serialize"):
+                            return [payload, True]
+                        if f_ == "struct.pack":
+                            return Buf(900, 904)
+                        return Sym(f"<{f_}>")
+                    env = {"self": Sym("transport"), lim: L, fn.params()[1]: Sym("message"), "self.log": Sym("log"), "self._serializer": Sym("serializer"),
+                           "self.__class__": Sym("class", __name__="X"), "self.transport": Sym("tcp"), "self.prefix_format": "!L"}
+                    from .c07_cells import _method_env
+
+                    def inl(name, _cls=fn.cls):
+                        if name in ("isOpen",):
+                            return None
+                        m_ = ctx.program.lookup_method(_cls, name)
+                        if m_ is None and name == "sendString" and q.startswith(AIO):  # asyncio: the mixin's framing function lives in PrefixProtocol
+                            m_ = ctx.program.cls(f"{AIO}.PrefixProtocol").methods.get("sendString")
+                        return m_.node if m_ is not None and (name.startswith("_") or name == "sendString") else None
+                    _method_env(ctx, fn.cls, fn, env)
+                    env.pop("self.sendString", None)
+                    r = Tiny(env, default_call=oracle, inline_self=inl, opaque_globals=True, model_strings=True).run(body)
+                    n_cells += 1
+                    fits = n_ <= L and n_ <= 2 ** 24 - 1
+                    tag = f"peer announced {L}, message of {n_} octets"
+                    refused = r[0] == "raise" and "PayloadExceededError" in str(r[1])
+                    if fits and not (r[0] != "raise" and len(wrote) == 1 and wrote[0] is payload):
+                        probs.append(f"{tag}: {r[0]} {str(r[1])[:40]}, {len(wrote)} write(s); expected the message to be written once")
+                    if not fits and (not refused or wrote):
+                        probs.append(f"{tag}: {'written' if wrote else r[0]} -- expected PayloadExceededError and nothing written"
+                                     + (" (2**24 does not fit the 24-bit length prefix: it goes out as an empty frame of type 1 followed by 16 MiB of stray octets)" if n_ == 2 ** 24 and wrote else ""))
+        except AnalysisError as e:
+            raise AnalysisError(f"[C13.4-send-and-receive-limits] {q} outside the modelled subset: {e}")
+        ctx.ob(f"{q.split('.')[-3]}.{q.split('.')[-2]}.send: written iff within the announced maximum and within the 24-bit length prefix, else PayloadExceededError [{n_cells} cells]",
+               not probs, "; ".join(probs[:2]), fn.loc())
     pp = ctx.program.func(f"{AIO}.PrefixProtocol.data_received")
     ctx.analysed(pp)
     g, mf, res = an.get(pp)
